@@ -419,3 +419,17 @@ Proof.
   replace (g_byte (w mod 256)) with (Z.to_N w mod 256)%N by (unfold g_byte; lia).
   reflexivity.
 Qed.
+
+(* ---- MTData2Packet.Identifier: the packet header decoded through the generated SetUint16 ---- *)
+Theorem packet_identifier_agrees p :
+  g_MTData2Packet_Identifier p =
+  if (2 <=? length p)%nat
+  then Val (Gen.Funcs.f_DataIdentifier_SetUint16 0 0 0 (Z.of_N (be16 (nthb p 0) (nthb p 1))))
+  else Pan.
+Proof.
+  unfold g_MTData2Packet_Identifier. cbv zeta.
+  destruct (Nat.leb_spec 2 (length p)) as [H|H].
+  - rewrite (g_slice_z p 0 2) by lia. change (Z.to_nat 2 - Z.to_nat 0)%nat with 2%nat. change (Z.to_nat 0) with 0%nat.
+    cbn [rbind]. rewrite sub_two by lia. reflexivity.
+  - change 0 with (Z.of_nat 0) at 1. change 2 with (Z.of_nat 2) at 1. rewrite g_slice_oob by lia. reflexivity.
+Qed.
